@@ -12,7 +12,7 @@ by handlers, ``finally`` executions).
 """
 from vlib.symx import fork_int
 
-YIELD, RAISE, RETURN, SUB, TRYFIN, TRYEXC, END, TRANS = range(8)
+YIELD, RAISE, RETURN, SUB, TRYFIN, TRYEXC, END, TRANS, CATCHRET = range(9)
 NOPS = 7  # TRANS is only used where a harness lists it explicitly
 SEND, THROW, STOP, CLOSE, SENDNONE = range(5)
 NACT = 4  # SENDNONE only when drive(..., nact=5)
@@ -24,6 +24,7 @@ class Boom(Exception):
 
 SIMPLE_OPS = (YIELD, RAISE, RETURN, END)
 ALL_OPS = (YIELD, RAISE, RETURN, SUB, TRYFIN, TRYEXC, END)
+RICH_OPS = ALL_OPS + (TRANS, CATCHRET)  # plus: translate a thrown exception into another one; catch it and return a value without yielding
 
 
 def interp(code, log, tag="p", maxdepth=2, msg_cmd="null", ops=ALL_OPS):
@@ -69,6 +70,13 @@ def interp(code, log, tag="p", maxdepth=2, msg_cmd="null", ops=ALL_OPS):
                 except Boom as e:
                     log.append(("translate", tag, pc, e.args))
                     raise Boom("translated", tag, pc) from None
+            elif op == CATCHRET:
+                try:
+                    r = yield from block(level + 1)
+                    log.append(("try-done", tag, pc, r))
+                except Boom as e:
+                    log.append(("caught-and-returned", tag, pc, e.args))
+                    return ("caught-ret", tag, pc)
             elif op == TRYEXC:
                 try:
                     r = yield from block(level + 1)
